@@ -52,7 +52,9 @@ Holds(prop, o) == CASE prop = "C01" -> RevExact(o)
                     [] prop = "C06" -> Transparent(o)
                     [] prop = "C07" -> SecondOrder(o)
                     [] prop = "C09" -> RevExact(o) /\ FwdExact(o)
-                    [] prop = "C11" -> RevExact(o) /\ FwdExact(o)
+                    \* C11 / C12 state that indexing propagates derivatives exactly - unlike C01 they leave no room for "or the call raises"
+                    [] prop = "C11" -> RevExact(o) /\ FwdExact(o) /\ ~o.vjp_raised /\ ~o.jvp_raised
+                    [] prop = "C12" -> RevExact(o) /\ ~o.vjp_raised
                     [] prop = "C10" -> Reusable(o)
                     [] prop = "C08" -> LinearAtZero(o)
                     \* C14 / C17 on the `extend` and `where` families: a derivative declared zero (None) is an exact zero *in the argument's space*
